@@ -203,13 +203,13 @@ func (x wrCloser) Close() error                { return x.s.close() }
 
 type wrFast struct{ s *stub }
 
-func (x wrFast) Write(p []byte) (int, error)          { return x.s.write(p) }
+func (x wrFast) Write(p []byte) (int, error)         { return x.s.write(p) }
 func (x wrFast) ReadFrom(r io.Reader) (int64, error) { return x.s.readFrom(r) }
 
 type wrCloserFast struct{ s *stub }
 
-func (x wrCloserFast) Write(p []byte) (int, error)          { return x.s.write(p) }
-func (x wrCloserFast) Close() error                         { return x.s.close() }
+func (x wrCloserFast) Write(p []byte) (int, error)         { return x.s.write(p) }
+func (x wrCloserFast) Close() error                        { return x.s.close() }
 func (x wrCloserFast) ReadFrom(r io.Reader) (int64, error) { return x.s.readFrom(r) }
 
 // plain endpoints on the client's side (never offer a fast path)
